@@ -312,6 +312,17 @@ func c13Funcs() vuego.FuncMap {
 		"prefix":  func(v string, pre string) string { return pre + v },
 		"repeat":  func(s string, n int) string { return strings.Repeat(s, n) },
 		"isbig":   func(v int) bool { return v > 3 },
+		"ctxjoin": func(ctx *vuego.VueContext, parts ...string) string { return strings.Join(parts, "+") },
+		"ctxpad": func(ctx *vuego.VueContext, width int, parts ...string) string {
+			return fmt.Sprintf("%d:%s", width, strings.Join(parts, ","))
+		},
+		"sum": func(nums ...int) int {
+			t := 0
+			for _, n := range nums {
+				t += n
+			}
+			return t
+		},
 	}
 }
 
@@ -525,6 +536,10 @@ func c13Stages() []c13Stage {
 		{"repeat(2)", func(v c13V) (c13V, bool) { s, ok := str(v); return c13V{T: "string", S: s + s}, ok }},
 		{"withctx", func(v c13V) (c13V, bool) { s, ok := str(v); return c13V{T: "string", S: "ctx:" + s}, ok }},
 		{`joinall("a", "b")`, func(v c13V) (c13V, bool) { s, ok := str(v); return c13V{T: "string", S: s + "+a+b"}, ok }},
+		{`ctxjoin("a")`, func(v c13V) (c13V, bool) { s, ok := str(v); return c13V{T: "string", S: s + "+a"}, ok }},
+		{"ctxjoin", func(v c13V) (c13V, bool) { s, ok := str(v); return c13V{T: "string", S: s}, ok }},
+		{`ctxpad("p", 'q')`, func(v c13V) (c13V, bool) { i, ok := num(v); return c13V{T: "string", S: fmt.Sprintf("%d:p,q", i)}, ok }},
+		{"sum(2, k)", func(v c13V) (c13V, bool) { i, ok := num(v); return c13V{T: "int", I: i + 4}, ok }},
 		{"isbig", func(v c13V) (c13V, bool) { i, ok := num(v); return c13V{T: "bool", B: i > 3}, ok }},
 		{"neg", func(v c13V) (c13V, bool) { return c13V{T: "bool", B: !v.B}, v.T == "bool" }},
 	}
